@@ -608,3 +608,13 @@ func (r *Raft) SimNode() int { return r.simNode }
 
 var _ = bytes.Equal
 var _ io.Reader
+
+// NewManual returns a member that is driven by hand (FSM-level engine): no cluster, no tasks of its
+// own. The caller stores committed entries in logs, moves the commit index with SetCommit and calls
+// the FSM itself, the way the apply loop would.
+func NewManual(id ServerID, logs LogStore) *Raft {
+	return &Raft{c: &Cluster{nodes: map[ServerID]*Raft{}}, id: id, logs: logs, resp: map[uint64]interface{}{}}
+}
+
+// SetCommit sets the commit index this member reports.
+func (r *Raft) SetCommit(i uint64) { r.commit = i }
